@@ -998,6 +998,8 @@ func parenLimitWitness(dir string, o *hc.Out) {
 		}
 	}()
 	if parenLimitPanics {
+		// repaired in /repo (F104): a panic here is a regression
 		o.Count("finding:limit_error_of_parenthesised_member_panics")
+		o.Law("recursive_paren_limit_error_panics", map[string]interface{}{"sql": sql, "limit_recursion": 2, "expected": "iteration of recursive query exceeded the limit"})
 	}
 }
